@@ -484,6 +484,14 @@ def run(ck):
     base = ck.seed * 1000003 + 5
     names = sorted(HISTORIES)
     errnos = [-22, -3, -12] if ck.thorough() else [-22]
+    # every history once more with EDGE-SHAPED SPIs / nonces / IVs (leading or trailing 0x00 / 0xff, a zero inside, top bits set)
+    def special():
+        for hi, name in enumerate(names):
+            if ck.mine(hi + 2) and not HISTORIES[name][0].get('equal_spis'):
+                sc_ = run_history(name, base + 15000 + hi, mons)
+                judge_new_child(ck, sc_)
+                ck.count('special_values.histories')
+    S.special_pass(ck, 15100, special)
     n = 0
     for hi, name in enumerate(names):
         # clean run: how many netlink requests does each endpoint issue after start-up?
@@ -560,6 +568,7 @@ def hub_walks(ck, sad, base):
 
 
 def verdict(ck):
+    ck.floor('(octet count, shape) classes of edge-shaped urandom() results (leading / trailing 0x00 / 0xff, top bit, zero inside) handed to the daemons in the special-values pass', len(ck.sets['special_values.shapes']), 10)
     ck.floor('hub walks', ck.counters['hub.walks'], 80)
     ck.floor('authentic messages with a CHILD_SA SPI of another size than 4 after which the SAD equalled the tracked CHILD_SAs', ck.counters['odd_spi.sad_equals_tracked'], 24)
     ck.floor('CHILD_SA creations after a (possibly refused) rekey that left every other pair in the kernel', ck.counters['new_child_keeps_others.held'], 30)
